@@ -12,6 +12,9 @@ CLAIMS = {
  "C02": dict(engine="csim", level="exploration", design="4 C02",
    text="Every block any honest node stores is re-judged by harness code sharing only SignBytes and the signature primitive with the repository: linkage, app/receipts hash of the prior state, header commitments recomputed on a fresh decode, validator-set hash, and the stored seen-commit plus the LastCommit of the next block verified signature by signature against a reference validator-set history.",
    note="Reference execution is the lite application model in csim runs; Byzantine proposers build blocks on honest state with mutated fields. Hash functions (merkle, wire) are the repository's, applied to a freshly decoded copy."),
+ "C03": dict(engine="signersim+csim", level="fault_enumeration", design="4 C03",
+   text="signersim: for sampled request histories (heights 1-3, rounds 0-2, three steps, three block ids, repeats and regressions) every request is combined with every crash stage and every write-failure stage of the durable signer-file write, each followed by reload and the rest of the history; released signatures must be unique per height/round/step, never regress, and be covered by the durable watermark after every reload. csim: the same ledger over everything honest validators sign in multi-node runs with armed crashes inside the signer write.",
+   note="Exhaustive over (request, stage) for each sampled history; histories are sampled. Process-death durability (what was written before the crash point stays); reads are not faulted. A request may fail under an injected write error; nothing else is relaxed."),
  "C04": dict(engine="csim", level="exploration", design="4 C04",
    text="Every vote and proposal an honest validator signs is judged at the moment of signing against the ledger of valid votes delivered to it: precommit needs a polka of that round, prevote/proposal against an earlier precommit needs a later polka for something else, commit needs +2/3 precommits of one round.",
    note="The ledger counts delivered (a superset of processed) votes, so it only errs toward permitting. The monitor starts over at each restart (what survives a crash is C07's subject)."),
@@ -30,7 +33,6 @@ CLAIMS = {
 }
 
 PLANNED = {
- "C03": "not claimed yet: signer crash-point enumerator (signersim) not built in this revision; an in-vivo signature ledger already runs inside every csim run",
  "C05": "not claimed yet: execsim (replicas x process histories x verifier schedules over the real EVM app) not built in this revision",
  "C06": "not claimed yet: crashsim (exhaustive single-crash enumeration over the commit path with the real EVM app) not built in this revision",
  "C08": "not claimed yet: structure-aware message injection into csim not built in this revision",
@@ -69,6 +71,7 @@ def main():
         dict(name="simdisk", path="/verif/simdisk", serves_properties=sorted(CLAIMS), kind_free_text="simulated durable storage behind dbm.DB and ethdb.Database with write counter and crash arming"),
         dict(name="instr", path="/verif/instr", serves_properties=sorted(CLAIMS), kind_free_text="go/ast instrumenter applied to the scratch copy: go statements -> simhook.Go (level 0), lock sites -> simhook.LockF (level 1)"),
         dict(name="csim", path="/verif/sims/csim", serves_properties=[p for p in sorted(CLAIMS) if "csim" in CLAIMS[p]["engine"]], kind_free_text="message-level consensus simulator: real ConsensusState/Reactor.Receive/WAL/signer/store per validator, Byzantine puppets, run-to-quiescence in a synctest bubble"),
+        dict(name="signersim", path="/verif/sims/signersim", serves_properties=["C03"], kind_free_text="crash-point and write-error enumeration over the real signer file"),
         dict(name="valsetsim", path="/verif/sims/valsetsim", serves_properties=["C16"], kind_free_text="validator-set histories replayed on differently-batched / persisted replicas"),
     ]
     m = dict(version=1, setup_cmd="./verif setup", hooks=hooks, engines=engines, checks=checks, not_applicable=na,
